@@ -42,19 +42,21 @@ FUNCTIONS = [
 BOUNDS = ("fluents x, y: int[-100,100], r: real[-100,100], b: bool, o: user type with 2 objects, c: bool (conditions); collections of <= 3 effects "
           "(+ optionally one simulated effect) from the templates assign / increase / decrease / conditional assign / conditional increase / "
           "assign a fluent expression / assign real k/2 / Boolean assign / object assign, on the same or on different fluents; every numeric value a solver "
-          "integer in [-4,4] (<= 3 per path); every permutation; containers: InstantaneousAction, Event, DurativeAction at start / end / start+d "
+          "integer in [1,9] (<= 3 per path); every permutation; containers: InstantaneousAction, Event, DurativeAction at start / end / start+d "
           "(d in 0..2) with an optional effect at another timing, Problem timed effects at global start+d; quick: all pairs of templates "
-          "(with and without a simulated effect) and the triples over the templates on x; thorough: all triples")
+          "(with and without a simulated effect) on InstantaneousAction, reduced template lists on the other containers, the triples over "
+          "assign/increase/conditional-assign on x; thorough: all pairs on every container and simulated effect, all triples over 7 templates")
 OUTSIDE = ("more than 3 effects plus a simulated effect; quantified (forall) effects; parameterised fluents; continuous effects of processes; "
-           "values outside [-4,4] (conflicts only depend on which values coincide)")
+           "values outside [1,9] (conflicts only depend on which values coincide)")
 ASSUMPTIONS = ["the candidate next insertions are a finite list (every effect template on every fluent with every value of the collection and one fresh "
                "value, every simulated effect), not all expressions",
                "a copy of a container is obtained by replaying its whole insertion history (accepted and rejected) on a new container; "
                "a copy on which a candidate was rejected is reused for the next candidate",
                "when a path has both an order-dependence and an exception-safety failure the former is reported"]
 
-NUM_LO, NUM_HI = -4, 4
+NUM_LO, NUM_HI = 1, 9  # disjoint from every constant the library or the harness creates (0, ONE, FRESH): no accidental node sharing
 FRESH = 77
+ONE = 55
 
 
 # ------------------------------------------------------------------------------------------------
@@ -64,7 +66,7 @@ class World:
     pass
 
 
-def _world(ctx, env, kind, timing, with_other):
+def _world(ctx, env, kind, timing, with_other, delay_hi=2):
     import warnings
 
     import unified_planning as up
@@ -88,7 +90,7 @@ def _world(ctx, env, kind, timing, with_other):
         w.fluents = fl
         w.objs = [em.ObjectExp(up.model.Object(f"o{i}", loc, env)) for i in (1, 2)]
         w.fresh = em.Int(FRESH)
-        w.one = em.Int(1)
+        w.one = em.Int(ONE)
     # timing of the collection (durative action / problem); the delay is a solver integer (Timing is a dict key: realised)
     w.timing = w.other = None
     if kind == "da":
@@ -97,10 +99,10 @@ def _world(ctx, env, kind, timing, with_other):
         elif timing == "end":
             w.timing = EndTiming()
         else:
-            w.timing = StartTiming(ctx.concrete(ctx.int("delay", 0, 2)))
+            w.timing = StartTiming(ctx.concrete(ctx.int("delay", 0, delay_hi)))
         w.other = StartTiming(5) if with_other else None
     elif kind == "pb":
-        w.timing = GlobalStartTiming(ctx.concrete(ctx.int("delay", 0, 2)))
+        w.timing = GlobalStartTiming(ctx.concrete(ctx.int("delay", 0, delay_hi)))
         w.other = GlobalStartTiming(5) if with_other else None
     return w
 
@@ -225,7 +227,7 @@ def _make_op(ctx, w, tpl, i, budget):
         budget[0] -= 1
         n = ctx.int(f"v{i}", NUM_LO, NUM_HI)
     else:
-        n = 1
+        n = ONE
     if k == "Ah":
         return Op("A", f, em.Real(Fraction(n, 2)), other=other, label=lab)
     val = em.Int(n)
@@ -275,11 +277,11 @@ def _candidates(w, ops, with_sim):
 # ------------------------------------------------------------------------------------------------
 # the harness
 # ------------------------------------------------------------------------------------------------
-def h_collection(ctx, container, colls, timing="start", n_sym=3, with_other=False):
+def h_collection(ctx, container, colls, timing="start", n_sym=3, with_other=False, delay_hi=2):
     """colls: list of collections (lists of templates); which one is a choice variable; so is the insertion order."""
     env = ctx.fresh_env()
     coll = colls[ctx.choice("coll", len(colls))]
-    w = _world(ctx, env, container, timing, with_other or any(t.endswith("@o") for t in coll))
+    w = _world(ctx, env, container, timing, with_other or any(t.endswith("@o") for t in coll), delay_hi)
     has_sim = container != "pb"
     budget = [n_sym]
     ops = [_make_op(ctx, w, t, i, budget) for i, t in enumerate(coll)]
@@ -391,29 +393,38 @@ def shards(tier, seed):
             sh(f"ia-pairs-Sx-{i}", b, container="ia", colls=[c + ["S:x"] for c in ch])
         sh("ia-pairs-Sy", b, container="ia", colls=[c + ["S:y"] for c in _multisets(["A:y", "I:y", "cA:y", "A:x"], 2)])
         sh("ia-pairs-Sxy-Sb", b, container="ia", colls=[c + ["S:xy"] for c in _multisets(["A:y", "I:x", "cI:x"], 2)] + [["B:b:1", "B:b:0", "S:b"], ["cB:b:1", "A:x", "S:b"]])
-        for i, ch in enumerate(_chunks(triples_x, 2)):
+        tx = _multisets(["A:x", "I:x", "cA:x"], 3) + [["A:x", "A:x", "A:y"], ["A:x", "I:x", "A:y"]]
+        for i, ch in enumerate(_chunks(tx, 3)):
             sh(f"ia-triples-{i}", b, container="ia", colls=ch)
-        for i, ch in enumerate(_chunks(_multisets(["A:x", "I:x", "cA:x"], 3), 3)):
-            sh(f"ia-triples-Sx-{i}", b, container="ia", colls=[c + ["S:x"] for c in ch])
+        t4 = [["A:x", "A:x", "A:x"], ["A:x", "A:x", "I:x"], ["A:x", "I:x", "cA:x"], ["I:x", "I:x", "cA:x"]]
+        tsx = [["A:x", "A:x", "I:x", "S:x"], ["A:x", "I:x", "cA:x", "S:x"], ["I:x", "I:x", "A:y", "S:x"], ["A:x", "A:y", "cI:x", "S:xy"]]
+        for i, ch in enumerate(_chunks(tsx, 2)):
+            sh(f"ia-triples-S-{i}", b, container="ia", colls=ch)
         sh("ev-pairs-Sx", b, container="ev", colls=[c + ["S:x"] for c in _multisets(["A:x", "I:x", "cI:x", "A:y"], 2)])
-        sh("da-pairs", b, container="da", timing="delay", colls=_multisets(["A:x", "I:x", "D:x", "cA:x", "Ay:x", "A:x@o"], 2))
+        sh("da-pairs", b, container="da", timing="delay", delay_hi=1, colls=_multisets(["A:x", "I:x", "cA:x", "Ay:x", "A:x@o"], 2))
         for tmg in ("start", "end"):
-            sh(f"da-{tmg}-pairs-Sx", b, container="da", timing=tmg, colls=[c + ["S:x"] for c in _multisets(["A:x", "I:x", "cI:x", "A:y", "I:x@o"], 2)])
-        sh("da-triples", b, container="da", timing="start", colls=_multisets(["A:x", "I:x", "cA:x"], 3))
-        sh("pb-pairs", b, container="pb", colls=_multisets(["A:x", "I:x", "D:x", "cA:x", "Ay:x", "Ah:r", "O:o:1", "A:x@o"], 2))
-        sh("pb-triples", b, container="pb", colls=_multisets(["A:x", "I:x", "cA:x"], 3))
+            sh(f"da-{tmg}-pairs-Sx", b, container="da", timing=tmg, colls=[c + ["S:x"] for c in _multisets(["A:x", "I:x", "I:x@o"], 2)])
+        sh("da-triples", b, container="da", timing="start", colls=t4)
+        pbp = _multisets(["A:x", "I:x", "D:x", "cA:x", "Ay:x", "Ah:r", "O:o:1", "A:x@o"], 2)
+        for i, ch in enumerate(_chunks([_second(c) for c in pbp], 2)):
+            sh(f"pb-pairs-{i}", b, container="pb", delay_hi=1, colls=ch)
+        sh("pb-triples", b, container="pb", delay_hi=0, colls=t4)
     else:
         b = 900
-        triples = [_second(c) for c in _multisets(T_ALL, 3)]
-        for cont in ("ia", "da", "pb", "ev"):
+        t7 = _multisets(["A:x", "I:x", "D:x", "cA:x", "cI:x", "A:y", "Ay:x"], 3)
+        for cont in ("ia", "ev", "da", "pb"):
             sims = [None] if cont == "pb" else [None, "S:x", "S:y", "S:xy"]
             for s in sims:
                 tag = "" if s is None else "-" + s.replace(":", "")
-                for i, ch in enumerate(_chunks(pairs, 2)):
+                for i, ch in enumerate(_chunks(pairs, 2 if s is None else 6)):
                     sh(f"{cont}-pairs{tag}-{i}", b, container=cont, timing="delay", colls=[c + ([s] if s else []) for c in ch])
-                for i, ch in enumerate(_chunks(triples, 20 if s else 8)):
-                    sh(f"{cont}-triples{tag}-{i}", b, container=cont, timing="start", colls=[c + ([s] if s else []) for c in ch])
-        for i, ch in enumerate(_chunks(_multisets(["A:x", "I:x", "cA:x", "A:x@o", "I:x@o", "S:x@o"], 3), 4)):
+            if cont != "ev":
+                for i, ch in enumerate(_chunks(t7, 6)):
+                    sh(f"{cont}-triples-{i}", b, container=cont, timing="start", delay_hi=0, colls=ch)
+        for i, ch in enumerate(_chunks(triples_x, 5)):
+            sh(f"ia-triples-Sx-{i}", b, container="ia", colls=[c + ["S:x"] for c in ch])
+            sh(f"da-triples-Sx-{i}", b, container="da", timing="end", colls=[c + ["S:x"] for c in ch])
+        for i, ch in enumerate(_chunks(_multisets(["A:x", "I:x", "cA:x", "A:x@o", "I:x@o", "S:x@o"], 3), 6)):
             sh(f"da-two-timings-{i}", b, container="da", timing="end", colls=[c + ["S:x"] for c in ch])
     return out
 
@@ -421,7 +432,7 @@ def shards(tier, seed):
 MANIFEST = dict(
     engine="symex",
     technique="symbolic execution (CrossHair/z3) of the effect-insertion API with symbolic effect values; relational assertions between a permuted and a reference insertion order and between a container after a rejected insertion and a fresh container holding the accepted insertions",
-    text="Bounded model checking: for every collection of <= 3 effects (+ a simulated effect) from the stated templates, EVERY value of the numeric effect values in [-4,4] (the solver decides which coincide), every permutation and "
+    text="Bounded model checking: for every collection of <= 3 effects (+ a simulated effect) from the stated templates, EVERY value of the numeric effect values in [1,9] (the solver decides which coincide), every permutation and "
          "each of InstantaneousAction / Event / DurativeAction timing / Problem timed effects: rejection is order independent; a rejected insertion leaves stored effects unchanged and every candidate next insertion is judged "
          "as on a fresh container holding only the accepted insertions.",
     note="Trusted: CrossHair's int model, z3, S2 association-list hash-consing tables. The candidate next insertions are a finite list (ASSUMPTIONS). Outside: forall effects, parameterised fluents, continuous effects.",
